@@ -123,7 +123,7 @@ impl Check for C07 {
         "simplify"
     }
     fn cases(&self, tier: Tier) -> usize {
-        tier.pick(60_000, 1_500_000)
+        tier.pick(180_000, 4_000_000)
     }
     fn strategy(&self, _tier: Tier) -> BoxedStrategy<Case> {
         let fc = fol_cfg();
